@@ -13,6 +13,7 @@
 -/
 import GV.Eval.RefStmtThm
 import GV.Orch.Sched
+import GV.Generated.Facts
 namespace GV.Props.C18
 open GV.Eval
 
@@ -180,5 +181,13 @@ theorem C18_no_early_pass (children : List Name) (s : LSt) (h : Reach [children]
   have := counter_exact h
   rw [hwg] at this
   refine ⟨?_, ?_, ?_⟩ <;> apply List.length_eq_zero_iff.mp <;> omega
+
+/-- a conc block keeps nothing in its own node between executions (its error list, its lock and
+    its WaitGroup are locals of `Evaluate`): no method of internal/base writes to the node it is
+    called on (regenerated) -/
+theorem C18_block_node_read_only :
+    GV.Generated.Facts.nodeWrites =
+      ["KnowledgeContext.ClearRules: k.RuleEntities =", "KnowledgeContext.ClearRules: k.SortRules =",
+       "KnowledgeContext.ClearRules: k.SortRulesIndexMap ="] := by decide
 
 end GV.Props.C18
